@@ -28,3 +28,13 @@ for d in seeded/C*/; do
   echo "| $id | $prop | ${hits:-**not reported**} |" >> $out
   echo "$id -> ${hits:-MISSED}"
 done
+# which seeds the quick checks report (consumed by the thorough tier)
+python3 - <<'PY'
+import re, json
+exp = {}
+for l in open('/verif/seeded/MATRIX.md'):
+    m = re.match(r'\| (C\d+b?-\d) \| (C\d+) \| (.*) \|', l)
+    if m:
+        exp[m.group(1)] = 'not reported' not in m.group(3) and 'NOT APPLY' not in m.group(3)
+json.dump(exp, open('/verif/seeded/EXPECT.json', 'w'), indent=1, sort_keys=True)
+PY
